@@ -12,7 +12,7 @@ def run(tier, seed, replay):
     tpath = os.path.join(wd, "trace.ndjson")
     spath = os.path.join(wd, "stats.json")
     n, blocks = (400, 60) if thorough else (60, 40)
-    args = ["hist", "-n", str(n), "-blocks", str(blocks), "-maxops", "6", "-boundary", "-gov", "-jumps",
+    args = ["hist", "-n", str(n), "-blocks", str(blocks), "-maxops", "6", "-boundary", "-gov", "-jumps", "-valstatus", "-bbias", "1", "-mintinit", "-stories", "70",
             "-trace", tpath, "-stats", spath, "-seed", str(seed)]
     if replay:
         j = json.load(open(replay))
